@@ -1,7 +1,211 @@
 package main
 
-// Roles: functions and key families discovered from the repository by what
-// they do, not by name (filled lazily by roles.go helpers).
+import (
+	"go/types"
+
+	"golang.org/x/tools/go/ssa"
+)
+
+// Roles: functions and key layouts discovered from the repository by what
+// they do, not by what they are called.
 type Roles struct {
-	done bool
+	DocWriters  []*ssa.Function // functions that Tx.Set an encoded document
+	MetaWriters []*ssa.Function // functions that Tx.Set JSON-encoded collection metadata
+	MetaReaders []*ssa.Function // functions that Tx.Get a key of the catalog layout
+	DocSkel     string          // key layout of document records
+	CatalogSkel string          // key layout of the collection catalog
+	IndexSkel   string          // key layout of index entries
+	model       *keyModel
 }
+
+func (c *Ctx) Roles() *Roles {
+	if c.roles != nil {
+		return c.roles
+	}
+	r := &Roles{}
+	c.roles = r
+	r.model = c.keyModel()
+	isW := map[*ssa.Function]bool{}
+	isMW := map[*ssa.Function]bool{}
+	for _, s := range r.model.sinks {
+		if s.Op != "Set" {
+			continue
+		}
+		val := s.Call.Common().Args[1]
+		for _, o := range origins(val) {
+			ex, ok := o.(*ssa.Extract)
+			if !ok {
+				continue
+			}
+			cl, ok := ex.Tuple.(*ssa.Call)
+			if !ok {
+				continue
+			}
+			if c.isDocEncode(cl) {
+				if !isW[s.Fn] {
+					isW[s.Fn] = true
+					r.DocWriters = append(r.DocWriters, s.Fn)
+				}
+				for _, t := range s.Tmpls {
+					if !t.onlyOpaque() && !t.isNil() {
+						r.DocSkel = t.skeleton()
+					}
+				}
+			}
+			if calleeFullName(cl) == "encoding/json.Marshal" {
+				if !isMW[s.Fn] {
+					isMW[s.Fn] = true
+					r.MetaWriters = append(r.MetaWriters, s.Fn)
+				}
+				for _, t := range s.Tmpls {
+					if !t.onlyOpaque() && !t.isNil() {
+						r.CatalogSkel = t.skeleton()
+					}
+				}
+			}
+		}
+		if isNilConst(val) {
+			for _, t := range s.Tmpls {
+				if !t.onlyOpaque() && !t.isNil() {
+					r.IndexSkel = t.skeleton()
+				}
+			}
+		}
+	}
+	isMR := map[*ssa.Function]bool{}
+	for _, s := range r.model.sinks {
+		if s.Op != "Get" || r.CatalogSkel == "" {
+			continue
+		}
+		for _, t := range s.Tmpls {
+			if t.skeleton() == r.CatalogSkel && !isMR[s.Fn] {
+				isMR[s.Fn] = true
+				r.MetaReaders = append(r.MetaReaders, s.Fn)
+			}
+		}
+	}
+	return r
+}
+
+func (r *Roles) isDocWriter(f *ssa.Function) bool {
+	for _, w := range r.DocWriters {
+		if w == f {
+			return true
+		}
+	}
+	return false
+}
+
+func (r *Roles) isMetaWriter(f *ssa.Function) bool {
+	for _, w := range r.MetaWriters {
+		if w == f {
+			return true
+		}
+	}
+	return false
+}
+
+func (r *Roles) isMetaReader(f *ssa.Function) bool {
+	for _, w := range r.MetaReaders {
+		if w == f {
+			return true
+		}
+	}
+	return false
+}
+
+// sinkHasSkel: the sink's key can be of the given layout.
+func sinkHasSkel(s *keySink, skel string) bool {
+	for _, t := range s.Tmpls {
+		if t.skeleton() == skel {
+			return true
+		}
+	}
+	return false
+}
+
+// docParamIndex: index of the *Document parameter of a document writer.
+func (c *Ctx) docParamIndex(f *ssa.Function) int {
+	for i, p := range f.Params {
+		if c.isDocPtr(p.Type()) {
+			return i
+		}
+	}
+	return -1
+}
+
+// keyParamIndex: index of the []byte/string key parameter.
+func (c *Ctx) keyParamIndex(f *ssa.Function) int {
+	for i, p := range f.Params {
+		if isStringOrBytes(p.Type()) {
+			return i
+		}
+	}
+	return -1
+}
+
+// calleeEff: effects of the callee only (not of closures passed as arguments).
+func (c *Ctx) calleeEff(call ssa.CallInstruction) Eff {
+	var e Eff
+	cc := call.Common()
+	switch {
+	case c.isInvokeOf(call, "store", "Tx", "Get"):
+		e |= EffTxGet
+	case c.isInvokeOf(call, "store", "Tx", "Set"):
+		e |= EffTxSet
+	case c.isInvokeOf(call, "store", "Tx", "Delete"):
+		e |= EffTxDelete
+	case c.isInvokeOf(call, "store", "Tx", "Cursor"):
+		e |= EffCursor
+	case c.isInvokeOf(call, "index", "Index", "Add"):
+		e |= EffIdxAdd
+	case c.isInvokeOf(call, "index", "Index", "Remove"):
+		e |= EffIdxRemove
+	case c.isInvokeOf(call, "index", "Index", "Drop"):
+		e |= EffIdxDrop
+	}
+	if cc.IsInvoke() {
+		if !c.methodIsStoreIface(cc.Method) {
+			for _, f := range c.libImpls(cc.Method) {
+				e |= c.eff(f)
+			}
+		}
+	} else if g := staticCallee(call); g != nil {
+		g = c.declared(g)
+		if c.IsLib(g) {
+			e |= c.eff(g)
+		}
+	}
+	return e
+}
+
+// derivesFrom: value a is d, shares an origin with d, or is the result of a
+// call that takes d as receiver/argument (doc.ObjectId(), doc.Get(f)).
+func derivesFrom(a, d ssa.Value) bool {
+	if a == d || sameOrigin(a, d) {
+		return true
+	}
+	for _, o := range origins(a) {
+		var call *ssa.Call
+		switch x := o.(type) {
+		case *ssa.Call:
+			call = x
+		case *ssa.Extract:
+			call, _ = x.Tuple.(*ssa.Call)
+		}
+		if call == nil {
+			continue
+		}
+		for _, arg := range call.Common().Args {
+			if arg == d || sameOrigin(arg, d) {
+				return true
+			}
+		}
+		if call.Common().IsInvoke() && (call.Common().Value == d || sameOrigin(call.Common().Value, d)) {
+			return true
+		}
+	}
+	return false
+}
+
+var _ types.Type
